@@ -304,6 +304,12 @@ func FunctionMap() map[string]physical.FunctionDetails {
 					OutputType:    octosql.String,
 					Strict:        true,
 					Function: func(values []octosql.Value) (octosql.Value, error) {
+						if values[1].Int < 0 {
+							return octosql.ZeroValue, fmt.Errorf("can't repeat a string a negative number of times: %d", values[1].Int)
+						}
+						if len(values[0].Str) > 0 && values[1].Int > int64(math.MaxInt32/len(values[0].Str)) {
+							return octosql.ZeroValue, fmt.Errorf("repeated string would be too long")
+						}
 						return octosql.NewString(strings.Repeat(values[0].Str, int(values[1].Int))), nil
 					},
 				},
@@ -312,6 +318,12 @@ func FunctionMap() map[string]physical.FunctionDetails {
 					OutputType:    octosql.String,
 					Strict:        true,
 					Function: func(values []octosql.Value) (octosql.Value, error) {
+						if values[0].Int < 0 {
+							return octosql.ZeroValue, fmt.Errorf("can't repeat a string a negative number of times: %d", values[0].Int)
+						}
+						if len(values[1].Str) > 0 && values[0].Int > int64(math.MaxInt32/len(values[1].Str)) {
+							return octosql.ZeroValue, fmt.Errorf("repeated string would be too long")
+						}
 						return octosql.NewString(strings.Repeat(values[1].Str, int(values[0].Int))), nil
 					},
 				},
